@@ -1,7 +1,7 @@
 package main
 
 // C09 — concurrent installs/upgrades of one release cannot both proceed.
-// Two or three REAL action.Install / action.Upgrade calls on one release run under a
+// Two or three REAL action.Install / action.Upgrade (round 4: also Rollback / Uninstall) calls on one release run under a
 // deterministic scheduler (harness/internal/conc) that preempts at every storage driver call
 // and every mutating kube call; the same gate schedule drives Engine/Conc.v.  The oracle
 // evaluates the property text directly on what the real code did.
@@ -29,8 +29,10 @@ func (*c09) CoqImport() string {
 
 func (*c09) Rule() string {
 	return "a sequential prefix (nothing / install / install+upgrade) then 2 or 3 concurrent real install/upgrade operations on the same release " +
-		"(flags atomic/cleanup-on-fail/no-hooks, sometimes --replace; 1-3 resource charts, 0-1 hooks) on memory/Secret/ConfigMap storage, " +
-		"sometimes one rejected mutating cluster request; replayed under a gate schedule: corpus witnesses, enumerated interleavings of the base scenarios (quick: sampled; thorough: all two-operation " +
+		"(flags atomic/cleanup-on-fail/no-hooks/take-ownership/dry-run variants, sometimes --replace; options outside the model on every operation: --force, --recreate-pods, upgrade --install, value-reuse modes, " +
+		"skip-schema, no-validate, dns, sub-notes, skip-crds, label, description; 1-3 resource charts, 0-1 hooks) on memory/Secret/ConfigMap storage, " +
+		"sometimes one rejected mutating cluster request, sometimes (1 in 7, with a history) one participant is a rollback or an uninstall (a mix); replayed under a gate schedule: corpus witnesses " +
+		"(incl. the flag family: one option at a time on the operation that must lose), enumerated interleavings of the base, flag, mix and pruning scenarios (quick: sampled; thorough: all two-operation " +
 		"interleavings, three operations with <= 2 preemptions) and uniformly drawn interleavings of generated scenarios; " +
 		"non-trivial = the effective schedule switches operation at least twice while both are still running; distinct = hash of (case, observation)"
 }
